@@ -167,6 +167,55 @@ def directed(ctx):
                               case=dict(kind='exhaust', flow=kind),
                               expected='the arrival is discarded; the client keeps running', observed=repr(e))
         ssnet.MAX_CHANNEL = saved['max']
+        # --- a reply that arrives after the client has expired the query / association is discarded
+        for kind in ('dns', 'udp'):
+            client.dnsreqs.clear()
+            client.udp_by_src.clear()
+            now = [1000.0]
+            client.time.time = lambda: now[0]
+            mux = ssnet.Mux(_Dummy(), _Dummy())
+            handlers = []
+            sent = []
+
+            class L2:
+                family = 2
+
+            class M2:
+                def __init__(self):
+                    self.n = 0
+
+                def recv_udp(self, l, n):
+                    self.n += 1
+                    return (('10.0.0.%d' % self.n, 5), ('192.0.2.1', 53), b'query%d' % self.n)
+
+                def send_udp(self, *a):
+                    sent.append(a)
+            m2 = M2()
+            ctx.count()
+            ctx.hist('directed:late-' + kind)
+            ctx.mark(('late', kind), True)
+            try:
+                fn = client.ondns if kind == 'dns' else client.onaccept_udp
+                fn(L2(), m2, mux, handlers)
+                old = [c for c, v in mux.channels.items() if v]
+                now[0] += 31.0
+                fn(L2(), m2, mux, handlers)             # a newer arrival runs the expiry sweep
+                for c in old:
+                    if kind == 'dns':
+                        mux.got_packet(c, ssnet.CMD_DNS_RESPONSE, b'late answer')
+                    else:
+                        mux.got_packet(c, ssnet.CMD_UDP_DATA, b'198.51.100.7,77,late')
+                now[0] += 31.0
+                fn(L2(), m2, mux, handlers)             # and the next sweep still works
+                if len(sent) != 0:
+                    ctx.violation('C08:late-%s:reached-a-flow' % kind, case=dict(kind='exhaust', flow='late-' + kind),
+                                  expected='late frame for an expired flow is discarded', observed=len(sent))
+            except Exception as e:  # noqa
+                ctx.violation('C08:late-%s:exception-%s' % (kind, type(e).__name__),
+                              case=dict(kind='exhaust', flow='late-' + kind),
+                              expected='a late message for a closed flow is discarded; the client keeps running',
+                              observed=repr(e))
+        client.time.time = lambda: 1000.0
         # --- server proxies: socket errors of the handled set must not escape
         errs = [errno.ECONNREFUSED, errno.ENETUNREACH, errno.EHOSTUNREACH, errno.ETIMEDOUT, errno.ECONNRESET]
         for where in ('udp-recvfrom', 'dns-connect', 'dns-send', 'dns-recv'):
